@@ -11,7 +11,8 @@ ID = "C13"
 RULE = ("latent part: vapour-pressure constants (12 built-in components, or random Antoine a 4..9, b -3000..-600, c -120..30 / "
         "Frost a 5..25, b -8000..-1000, c +-5e5) x T 200..500 K (>= 80 K from the Antoine pole); non-trivial = |H| > 1 kJ/mol. "
         "cooling part: cubic Cp with coefficients of either sign and magnitudes 1e-9..1e3 (or a built-in component) x three "
-        "temperatures 200..500 K; non-trivial = t0 != t1 and t1 != t2. distinct = SHA-1 of the case JSON")
+        "temperatures 200..500 K, also as int / numpy.int64 / arrays (incl. an empty interval, one buffer refilled in place), keyword calls, "
+        "constants edited in place after use; non-trivial = t0 != t1 and t1 != t2. distinct = SHA-1 of the case JSON")
 ASSUMPTIONS = ["Clausius-Clapeyron checked against a 5-point numerical derivative (h = 0.05 K) of the package's own "
                "ln Psat, relative tolerance 1e-6", "cooling heat compared with 2-point Gauss-Legendre quadrature of the "
                "package's own specific heat (exact for cubics), tolerance 1e-12 of the sum of absolute terms"]
